@@ -555,3 +555,7 @@ def rules(chk: Check) -> None:
     chk.floor("R10.5", 10)
     chk.floor("R10.6", 8)
     chk.floor("R10.7", 15)
+    # R10.8: the tabulated range of each phase is that phase's own: no mutable class-level attribute of the free-energy / interpolation classes is
+    # mutated in place (two phases sharing one [T, flag] list would clip each other's range and move the extrapolation points)
+    from .shared import per_object_state
+    chk.stage(per_object_state, chk, "R10.8", ("Thermodynamics", "FreeEnergy", "InterpolatableFunction"))
